@@ -50,6 +50,7 @@ func runCase(t *rapid.T, sockets bool) {
 	}
 	vstat.ClassN("attempts", int64(len(res.Events)))
 	vstat.ClassN("aborts.unplanned-timeouts", int64(res.Unplanned))
+	vstat.ClassN("reads.default-on-timeout-although-something-was-queued", int64(res.SpuriousDefaults))
 	for _, e := range res.Events {
 		if e.Injected != nil && e.Aborted {
 			vstat.Class("abort.injected." + e.Injected.Mode.String())
